@@ -582,6 +582,7 @@ func doEnum(prog *ssa.Program, targets []*ssa.Package) {
 		Decode, Serialize   bool
 		NextLayerType, CanDecode bool
 		DecodeSig, SerializeSig string
+		SetNet bool
 	}
 	var out []ent
 	for _, p := range targets {
@@ -603,6 +604,8 @@ func doEnum(prog *ssa.Program, targets []*ssa.Package) {
 				case "SerializeTo":
 					e.Serialize = true
 					e.SerializeSig = ms.At(i).Type().String()
+				case "SetNetworkLayerForChecksum":
+					e.SetNet = true
 				case "NextLayerType":
 					e.NextLayerType = true
 				case "CanDecode":
